@@ -464,97 +464,72 @@ pub fn run_random(sh: &mut Shards, cfg: &HistCfg, stream: &[u8], rng: &mut Rng, 
     }
 }
 
-/// Re-execute recorded (or TLC-generated) histories on the real code: the arguments of every N / D / L
-/// event are taken from the file, the results are recorded afresh.
+/// Execute caller plans on the real code.  A plan line is
+/// {"ev":"PLAN","kind":"dec","h":..,"enc":..,"mode":..,"sink":..,"repl":..,"stream":[..],"calls":[[end,cap,last],..],"lat":bool}
+/// Each call presents stream[pos..end] (pos = bytes consumed so far); when the plan runs out before the stream
+/// is finished the documented loop continues with the last capacity.  Plans come from recorded histories
+/// (replay of a violation) and from TLC-generated behaviours of the specification (spec -> impl).
 pub fn replay(sh: &mut Shards, path: &str) {
     use serde_json::Value;
-    let text = std::fs::read_to_string(path).expect("replay file");
-    let mut cur: Option<(HistCfg, Vec<Decoder>)> = None;
-    let mut line = String::new();
+    let text = std::fs::read_to_string(path).expect("plan file");
     for l in text.lines() {
         let v: Value = match serde_json::from_str(l) {
             Ok(v) => v,
             Err(_) => continue,
         };
-        let ev = v["ev"].as_str().unwrap_or("");
-        match ev {
-            "N" => {
-                let e = crate::inputs::enc(v["enc"].as_str().unwrap());
-                let mode = match v["mode"].as_str().unwrap() {
-                    "sniff" => Mode::Sniff,
-                    "remove" => Mode::Remove,
-                    _ => Mode::Off,
-                };
-                let sink = match v["sink"].as_str().unwrap() {
-                    "utf8" => Sink::Utf8,
-                    "utf16" => Sink::Utf16,
-                    "str" => Sink::Str,
-                    _ => Sink::String_,
-                };
-                let cfg = HistCfg { enc: e, mode, sink, repl: v["repl"].as_bool().unwrap(), twins: false, latin1: 0, unit: 3, prelen: 0 };
-                let h = sh.begin();
-                sh.line(&format!(
-                    "{{\"ev\":\"N\",\"h\":{},\"enc\":\"{}\",\"mode\":\"{}\",\"sink\":\"{}\",\"repl\":{},\"bound\":{},\"orig\":{}}}",
-                    h,
-                    e.name(),
-                    mode.name(),
-                    sink.name(),
-                    cfg.repl,
-                    v["bound"].as_bool().unwrap_or(false),
-                    v["h"].as_u64().unwrap_or(0)
-                ));
-                let d = new_decoder(e, mode);
-                cur = Some((cfg, vec![d]));
+        if v["ev"].as_str() != Some("PLAN") || v["kind"].as_str() != Some("dec") {
+            continue;
+        }
+        let e = crate::inputs::enc(v["enc"].as_str().unwrap());
+        let mode = match v["mode"].as_str().unwrap() {
+            "sniff" => Mode::Sniff,
+            "remove" => Mode::Remove,
+            _ => Mode::Off,
+        };
+        let sink = match v["sink"].as_str().unwrap() {
+            "utf8" => Sink::Utf8,
+            "utf16" => Sink::Utf16,
+            "str" => Sink::Str,
+            _ => Sink::String_,
+        };
+        let cfg = HistCfg {
+            enc: e,
+            mode,
+            sink,
+            repl: v["repl"].as_bool().unwrap(),
+            twins: false,
+            latin1: if v["lat"].as_bool().unwrap_or(false) { 1 } else { 0 },
+            unit: 3,
+            prelen: v["prelen"].as_u64().unwrap_or(0) as usize,
+        };
+        let stream: Vec<u8> = v["stream"].as_array().unwrap().iter().map(|x| x.as_u64().unwrap() as u8).collect();
+        let mut h = Hist::begin(sh, &cfg, false);
+        let limit = 8 * stream.len() + 64;
+        let mut lastcap = cfg.sink.min_cap();
+        let mut finished = false;
+        for c in v["calls"].as_array().unwrap() {
+            let end = c[0].as_u64().unwrap() as usize;
+            let cap = c[1].as_u64().unwrap() as usize;
+            let last = c[2].as_bool().unwrap();
+            lastcap = cap;
+            let o = h.step(sh, &stream, end, CapSpec::Fixed(cap), last);
+            if h.dead {
+                break;
             }
-            "D" => {
-                if let Some((cfg, decs)) = cur.as_mut() {
-                    let src: Vec<u8> = v["src"].as_array().unwrap().iter().map(|x| x.as_u64().unwrap() as u8).collect();
-                    let cap = v["cap"].as_u64().unwrap() as usize;
-                    let last = v["last"].as_bool().unwrap();
-                    let prelen = v.get("pre").and_then(|p| p.as_array()).map(|a| a.len()).unwrap_or(0);
-                    let o = call(&mut decs[0], cfg.sink, cfg.repl, &src, cap, last, 0xA5, cfg.unit, prelen);
-                    line.clear();
-                    line.push_str("{\"ev\":\"D\",\"src\":");
-                    js_u8(&mut line, &src);
-                    let _ = write!(line, ",\"cap\":{},\"last\":{},", o.cap, last);
-                    obs_json(&mut line, &o);
-                    let _ = write!(line, ",\"had\":{},\"enc\":\"{}\",\"q\":false,\"guard\":{},\"alt\":[]", o.had, decs[0].encoding().name(), o.guard);
-                    match cfg.sink {
-                        Sink::Str => {
-                            line.push_str(",\"post\":");
-                            js_u8(&mut line, &o.post);
-                        }
-                        Sink::String_ => {
-                            line.push_str(",\"pre\":");
-                            js_u8(&mut line, &o.pre);
-                            line.push_str(",\"post\":");
-                            js_u8(&mut line, &o.post);
-                            let _ = write!(line, ",\"same\":{}", o.same);
-                        }
-                        _ => {}
-                    }
-                    line.push('}');
-                    sh.line(&line);
-                }
+            if o.res == 'I' && last {
+                finished = true;
+                break;
             }
-            "L" => {
-                if let Some((_cfg, decs)) = cur.as_mut() {
-                    let bytes: Vec<u8> = v["bytes"].as_array().unwrap().iter().map(|x| x.as_u64().unwrap() as u8).collect();
-                    let d = &decs[0];
-                    let r = catch_unwind(AssertUnwindSafe(|| d.latin1_byte_compatible_up_to(&bytes)));
-                    let ret: i64 = match r {
-                        Ok(Some(n)) => n as i64,
-                        Ok(None) => -1,
-                        Err(_) => -2,
-                    };
-                    line.clear();
-                    line.push_str("{\"ev\":\"L\",\"bytes\":");
-                    js_u8(&mut line, &bytes);
-                    let _ = write!(line, ",\"ret\":{}}}", ret);
-                    sh.line(&line);
-                }
+        }
+        while !finished && !h.dead && v["finish"].as_bool().unwrap_or(true) {
+            if h.calls > limit {
+                h.fault(sh, "livelock");
+                break;
             }
-            _ => {}
+            let o = h.step(sh, &stream, stream.len(), CapSpec::Fixed(lastcap.max(cfg.sink.min_cap())), true);
+            if o.res == 'I' {
+                finished = true;
+            }
         }
     }
 }
